@@ -117,6 +117,33 @@ def build_lib(mode):
     return dict(dir=d, lib=lib, inc=inc, mode=mode, cc=m["cc"], cflags=m["cflags"], ld=m["ld"])
 
 
+def build_shared(mode="pic"):
+    """libh3.so from the objects of a -fPIC build, eagerly bound (-z now) so that nothing in its writable segments changes after load."""
+    b = build_lib(mode)
+    so = os.path.join(b["dir"], "libh3.so")
+    if (not os.path.exists(so)) or os.path.getmtime(so) < os.path.getmtime(b["lib"]):
+        objs = sorted(glob.glob(os.path.join(b["dir"], "*.o")))
+        sh([b["cc"], "-shared", "-Wl,-z,now", "-o", so] + objs + ["-lm"], check=True)
+    b = dict(b)
+    b["so"] = so
+    return b
+
+
+def build_driver_so(name, mode="pic"):
+    b = build_shared(mode)
+    out = os.path.join(b["dir"], name + "_so")
+    srcs = [os.path.join(HARNESS, name + ".c"), os.path.join(HARNESS, "vtrace.c")]
+    deps = srcs + glob.glob(os.path.join(HARNESS, "*.h")) + [b["so"]]
+    if os.path.exists(out) and os.path.getmtime(out) >= max(os.path.getmtime(x) for x in deps):
+        return out
+    cmd = ([b["cc"], "-std=gnu11", "-D" + GUARD, "-DH3_PREFIX=", "-O1", "-g", "-I", b["inc"], "-I", HARNESS] + srcs +
+           ["-L", b["dir"], "-lh3", "-Wl,-rpath," + b["dir"], "-Wl,-z,now", "-lm", "-lpthread", "-o", out])
+    rc, o = sh(cmd, timeout=600)
+    if rc != 0:
+        raise InfraError("driver build failed (so/%s):\n%s" % (name, o[-3000:]))
+    return out
+
+
 def build_driver(name, mode, sources=None, extra_cflags=(), extra_ld=(), internal=False):
     """Compile harness/<name>.c (+ common files) against the library built in <mode>."""
     b = build_lib(mode)
